@@ -119,7 +119,7 @@ func fieldLoad(v ssa.Value, pkg, typ, field string) (ssa.Value, bool) {
 	if !ok {
 		return nil, false
 	}
-	if !an.TypeIs(fa.X.Type(), pkg, typ) || an.FieldAddrName(fa) != field {
+	if !an.TypeIs(fa.X.Type(), pkg, typ) || an.FieldAddrName(fa) != field && (pkg != G || an.FieldAddrName(fa) != fld(typ, field)) {
 		return nil, false
 	}
 	return fa.X, true
@@ -131,7 +131,7 @@ func fieldAddr(v ssa.Value, pkg, typ, field string) (ssa.Value, bool) {
 	if !ok {
 		return nil, false
 	}
-	if !an.TypeIs(fa.X.Type(), pkg, typ) || an.FieldAddrName(fa) != field {
+	if !an.TypeIs(fa.X.Type(), pkg, typ) || an.FieldAddrName(fa) != field && (pkg != G || an.FieldAddrName(fa) != fld(typ, field)) {
 		return nil, false
 	}
 	return fa.X, true
@@ -406,3 +406,118 @@ func sortFuncs(fs []*ssa.Function) {
 }
 
 func sortStrings(s []string) { sort.Strings(s) }
+
+// importRules runs another property's check as a sub-run and copies the
+// obligations pick selects into this report under `rule` (a failed one with
+// `consequence` appended). Sub-runs do not import in turn. Returns how many
+// obligations were copied.
+func (c *Ctx) importRules(run func(*Ctx), pick func(report.Obligation) bool, rule, consequence string) int {
+	if c.Sub {
+		return 0
+	}
+	tmp := &Ctx{P: c.P, R: report.New("tmp"), Tier: c.Tier, Sub: true}
+	run(tmp)
+	n := 0
+	for _, o := range tmp.R.Obls {
+		if !pick(o) {
+			continue
+		}
+		n++
+		if o.Status == report.Discharged {
+			c.R.OK(rule, o.Construct, o.Pos, o.Detail)
+		} else {
+			c.R.Fail(rule, o.Construct, o.Pos, o.Detail+consequence)
+		}
+	}
+	return n
+}
+
+// fld resolves a field the rules know by its name on the pinned tree
+// (conn.requestsWg, Server.connWg, shutdownCtx, conn.mu) to the name it has in
+// the program being analysed: the same name if the struct still has it,
+// otherwise the field that plays the role structurally - the only
+// sync.WaitGroup / context.Context field of the struct, or the connection's
+// mutex that is not the response lock. A renamed field is the same field.
+func fld(typ, name string) string {
+	p := an.Current
+	if p == nil {
+		return name
+	}
+	if fldMemoProg != p {
+		fldMemoProg, fldMemo = p, map[string]string{}
+	}
+	key := typ + "." + name
+	if v, ok := fldMemo[key]; ok {
+		return v
+	}
+	res := name
+	defer func() { fldMemo[key] = res }()
+	nt := p.NamedType(G, typ)
+	if nt == nil {
+		return res
+	}
+	st, ok := nt.Underlying().(*types.Struct)
+	if !ok {
+		return res
+	}
+	var byType = func(pkg, tn string, exclude map[string]bool) []string {
+		var out []string
+		for i := 0; i < st.NumFields(); i++ {
+			f := st.Field(i)
+			if an.TypeIs(f.Type(), pkg, tn) && !isPointer(f.Type()) && !exclude[f.Name()] || pkg == "context" && an.TypeIs(f.Type(), pkg, tn) {
+				out = append(out, f.Name())
+			}
+		}
+		return out
+	}
+	for i := 0; i < st.NumFields(); i++ {
+		if st.Field(i).Name() == name {
+			return res
+		}
+	}
+	var cands []string
+	switch key {
+	case "conn.requestsWg", "Server.connWg":
+		cands = byType("sync", "WaitGroup", nil)
+	case "conn.shutdownCtx", "Server.shutdownCtx":
+		cands = byType("context", "Context", nil)
+	case "Mux.unbindRoute", "Mux.defaultRoute", "Mux.routes":
+		// the Mux field the registration method of that name stores (appends) into
+		reg := map[string]string{"Mux.unbindRoute": "(*Mux).Unbind", "Mux.defaultRoute": "(*Mux).DefaultRoute", "Mux.routes": "(*Mux).Bind"}[key]
+		if f := p.Func(G, reg); f != nil {
+			seen := map[string]bool{}
+			an.Instrs(f, func(in ssa.Instruction) {
+				if st, ok := in.(*ssa.Store); ok {
+					if fa, ok := st.Addr.(*ssa.FieldAddr); ok && an.TypeIs(fa.X.Type(), G, "Mux") && !seen[an.FieldAddrName(fa)] {
+						seen[an.FieldAddrName(fa)] = true
+						cands = append(cands, an.FieldAddrName(fa))
+					}
+				}
+			})
+		}
+	case "conn.mu":
+		// the connection's mutexes minus the response lock (the one whose address is handed to newResponseWriter)
+		excl := map[string]bool{"writerMu": true}
+		for _, f := range p.FuncsOf(G) {
+			for _, ci := range an.Calls(f) {
+				if isNewRW(ci.Common()) && len(ci.Common().Args) > 1 {
+					if fa, isFA := an.Strip(ci.Common().Args[1]).(*ssa.FieldAddr); isFA {
+						excl[an.FieldAddrName(fa)] = true
+					}
+				}
+			}
+		}
+		cands = append(byType("sync", "Mutex", excl), byType("sync", "RWMutex", excl)...)
+	}
+	if len(cands) == 1 {
+		res = cands[0]
+	}
+	return res
+}
+
+var (
+	fldMemoProg *an.Prog
+	fldMemo     map[string]string
+)
+
+func init() { an.ForcedBranch = classifierForced }
